@@ -392,8 +392,9 @@ pub assume_specification[ <FineDuration as core::default::Default>::default ]() 
     subst = []
     for what, text, rep in REPLACED:
         subst.append((text if isinstance(text, Rx) else pin(text), rep.replace("\\", "\\\\"), 1))
-    subst.append((pin("sample_duration_sub_overhead(raw_sample)"),
-                  "sample_duration_sub_overhead(raw_sample, bench_overheads, sample_size, timer_precision)", 1))
+    # every call of the outlined closure gets the closure's captured variables as extra arguments
+    subst.append((r"sample_duration_sub_overhead\s*\(\s*(\w+)\s*\)",
+                  r"sample_duration_sub_overhead(\1, bench_overheads, sample_size, timer_precision)", "any"))
     subst.append((pin("for raw_sample in raw_samples"), "for raw_sample in it: raw_samples", "first"))
     loop_sec = code_fn(b, f_loop, "BenchContext::bench_loop_threaded", pair=["verif_loop::whole_loop_small"],
                        sig_subst=[(r"fn bench_loop_threaded<I, O>\(.*\)$", "fn bench_loop_threaded(&mut self)", 1)],
